@@ -47,14 +47,14 @@ def round_down_timestamp(timestamp: datetime, timeframe: timedelta) -> datetime:
     Note: This method also calls clean_timestamp, removing microseconds
     """
     timestamp = clean_timestamp(timestamp)
-    return datetime.fromtimestamp(
-        timestamp.timestamp() // timeframe.total_seconds() * timeframe.total_seconds()
-    )
+    epoch = datetime(1970, 1, 1, tzinfo=timestamp.tzinfo)
+    return epoch + (timestamp - epoch) // timeframe * timeframe
 
 
 def on_timeframe(timestamp: datetime, timeframe: timedelta) -> bool:
     """Checks if timestamp is on a timeframe value"""
-    return timestamp.timestamp() % timeframe.total_seconds() == 0
+    epoch = datetime(1970, 1, 1, tzinfo=timestamp.tzinfo)
+    return (timestamp - epoch) % timeframe == timedelta(0)
 
 
 def clean_timestamp(timestamp: datetime) -> datetime:
